@@ -201,7 +201,16 @@ fn one_story(ops: &[Value], tr: &mut Trace) -> String {
                 let _ = r;
                 core::future::pending::<Result<(), Error>>().await
             };
-            let run = select4(dev.run(&crypto, Tx(net.clone(), 0), Rx(net.clone(), 0), NoNetwork), responder.run::<4>(), im, dev.run_persist_resumption(&kv, embassy_time::Duration::from_secs(1)));
+            // the lazy writer of the resumption cache ends with the store's error (as documented); an application restarts it
+            let persist = async {
+                loop {
+                    let _ = dev.run_persist_resumption(&kv, embassy_time::Duration::from_secs(1)).await;
+                    embassy_time::Timer::after_millis(1000).await;
+                }
+                #[allow(unreachable_code)]
+                Ok::<(), Error>(())
+            };
+            let run = select4(dev.run(&crypto, Tx(net.clone(), 0), Rx(net.clone(), 0), NoNetwork), responder.run::<4>(), im, persist);
             match select(run, restart.wait()).await {
                 Either::First(_) => {
                     dev_alive.set(false);
@@ -505,7 +514,6 @@ fn one_story(ops: &[Value], tr: &mut Trace) -> String {
                     }
                     "KvFail" => {
                         // the k-th mutating store operation from now on fails (returns an error, changes nothing);
-                        // not used by the registered histories yet (DESIGN.md 8.2)
                         let mut s = kvs.borrow_mut();
                         let at = s.n_mut + op["k"].as_u64().unwrap_or(0) as usize;
                         s.fail_at = Some(at);
